@@ -92,26 +92,43 @@ def histories(rep, rnd, tier):
         nrs = [n_rule(r) for r in rules]
         steps = rnd.randint(30, 60) if tier == 'quick' else rnd.randint(60, 300)
         produced = []
+        forced = []
         for step in range(steps):
             r = rnd.random()
             d = rnd.choice([DI.UP, DI.DOWN])
-            if step and rnd.random() < 0.08:
+            if step and not forced and rnd.random() < 0.08:
                 # the configuration changes while the manager lives: results must follow the CURRENT rule set
-                # (nothing derived from an earlier state of a rule or of the rule list may survive)
-                pdk = rnd.choice(seeds)[3]
+                # (nothing derived from an earlier state of a rule or of the rule list may survive).
+                # The rule is used in both directions just before the change and just after it.
+                k_ = rnd.randrange(len(seeds))
+                pdk = seeds[k_][3]
                 pdk.direction = rnd.choice([DI.UP, DI.DOWN])
-                kind = rnd.choice(['replace-rule', 'replace-descriptor', 'append-rule'])
+                kind = rnd.choice(['replace-rule', 'replace-descriptor', 'append-rule', 'delete-descriptor', 'swap-descriptors', 'insert-descriptor'])
                 comp = [j for j, x in enumerate(rules) if x.nature is RuleNature.COMPRESSION and x.field_descriptors]
-                if kind == 'replace-rule' and comp:
-                    j = rnd.choice(comp)
+                j = rnd.choice(comp) if comp else None
+                probe = (bits_of(rules[j].id) if j is not None else '') + randbits(rnd, rnd.randint(0, 400))
+                around = [('c', seeds[k_][1], DI.UP), ('d', probe, DI.UP), ('d', probe, DI.DOWN), ('c', seeds[k_][1], DI.DOWN)]
+                forced = around + [('edit', kind, j, pdk)] + around
+            if forced and forced[0][0] == 'edit':
+                _, kind, j, pdk = forced.pop(0)
+                if kind == 'replace-rule' and j is not None:
                     rules[j] = gen_rule(rnd, pdk, bits_of(rules[j].id), kinds=KINDS)
-                elif kind == 'replace-descriptor' and comp:
-                    j = rnd.choice(comp)
+                elif kind == 'replace-descriptor' and j is not None:
                     fdl = rules[j].field_descriptors
                     i_ = rnd.randrange(len(fdl))
                     fld = [f for f in pdk.fields if str(f.id) == str(fdl[i_].id)]
                     if fld:
                         fdl[i_] = gen_rfd(rnd, fld[0], rnd.choice(('ns', 'vs', 'vsv', 'lsb', 'lsbv', 'map')), fdl[i_].direction)
+                elif kind == 'delete-descriptor' and j is not None:
+                    fdl = rules[j].field_descriptors
+                    del fdl[rnd.randrange(len(fdl))]
+                elif kind == 'swap-descriptors' and j is not None and len(rules[j].field_descriptors) > 1:
+                    fdl = rules[j].field_descriptors
+                    a_, b_ = rnd.sample(range(len(fdl)), 2)
+                    fdl[a_], fdl[b_] = fdl[b_], fdl[a_]
+                elif kind == 'insert-descriptor' and j is not None:
+                    fdl = rules[j].field_descriptors
+                    fdl.insert(rnd.randrange(len(fdl) + 1), gen_rfd(rnd, rnd.choice(pdk.fields), rnd.choice(('ns', 'vs', 'vsv', 'lsb')), DI.BIDIRECTIONAL))
                 elif kind == 'append-rule':
                     used = [bits_of(x.id) for x in rules]
                     for _ in range(20):
@@ -125,8 +142,15 @@ def histories(rep, rnd, tier):
                 rep.hist['history:edit:' + kind] = rep.hist.get('history:edit:' + kind, 0) + 1
             strat = rnd.choice([MatchStrategy.FIRST, MatchStrategy.BEST])
             fresh = ContextManager(Context.from_json(ctx.json()))        # an independent manager built from the serialised context
-            if r < 0.55 or not produced:
-                pkt = rnd.choice(seeds)[1] if rnd.random() < 0.8 else (gen_packet(rnd)[1] if rnd.random() < 0.5 else rnd.randbytes(rnd.randint(0, 40)))
+            pkt_f = s_f = None
+            if forced:
+                op_, x_, d = forced.pop(0)
+                if op_ == 'c':
+                    pkt_f, r = x_, 0.0
+                else:
+                    s_f, r = x_, 1.0
+            if r < 0.55 or (not produced and s_f is None):
+                pkt = pkt_f if pkt_f is not None else (rnd.choice(seeds)[1] if rnd.random() < 0.8 else (gen_packet(rnd)[1] if rnd.random() < 0.5 else rnd.randbytes(rnd.randint(0, 40))))
                 buf = Buffer(pkt, len(pkt) * 8)
                 bufs, before = snap([buf, ctx, cm])
                 o1 = obs_bits(with_timeout(lambda: cm.compress(buf, direction=d, match_strategy=strat)))
@@ -137,9 +161,12 @@ def histories(rep, rnd, tier):
                 if o1[0] == 'OK' and isinstance(o1[1], str):
                     produced.append((o1[1], d))
             else:
-                s, d = rnd.choice(produced)
-                if rnd.random() < 0.2:
-                    s = s[:rnd.randrange(len(s) + 1)]
+                if s_f is not None:
+                    s = s_f
+                else:
+                    s, d = rnd.choice(produced)
+                    if rnd.random() < 0.2:
+                        s = s[:rnd.randrange(len(s) + 1)]
                 sb = mk(s, rnd.choice([L, R]))
                 bufs, before = snap([sb, ctx, cm])
                 o1 = obs_bits(with_timeout(lambda: cm.decompress(sb, direction=d)))
